@@ -2,7 +2,7 @@
    expand_dims, squeeze, atleast_nd, flip) equal NumPy's result.  Statements only.
    Every statement holds for EVERY dimension and EVERY positive extents (element counts below
    2^64 where the C++ multiplies in size_t); `inb i d` says that i is an index of the shape d. *)
-From Coq Require Import Permutation.
+From Coq Require Import Permutation Sorted.
 From NM Require Import Base Index IndexProofs Views ViewsProofs.
 Local Open Scope Z_scope.
 
@@ -139,6 +139,15 @@ Example C03_moveaxis_single_axis_nonvacuous :
   np_moveaxis_ok 7 (AxOne (-6)) (AxOne 5) = true
   /\ np_moveaxis_order 7 (AxOne (-6)) (AxOne 5) = [0; 2; 3; 4; 5; 1; 6].
 Proof. vm_compute. split; reflexivity. Qed.
+
+(* index::argsort (used by moveaxis to order the destinations), EVERY list of keys: the result is a
+   permutation of the positions 0..len-1 and the keys ascend along it.  (Stability - equal keys keep
+   their order - is compared with numpy.argsort(kind='stable') by the correspondence only.) *)
+Theorem C03_argsort : forall a : list Z,
+  Permutation (argsort a) (seq 0 (length a))
+  /\ StronglySorted (fun i j => nth i a 0 <= nth j a 0) (argsort a).
+Proof. exact argsort_sorts. Qed.
+Print Assumptions C03_argsort.
 
 (* expand_dims (one axis or a list, negative allowed, no repetition): NumPy's shape; the view is
    the reshape to it, so C03_reshape_C_order gives the elements (ravel order unchanged) *)
